@@ -179,6 +179,7 @@ func init() {
 		return isSym(it.v)
 	})
 	E("Freeze", func(fr *frame, args []value) value { freeze(args[0]); return nil })
+	E("FreezeExcept", func(fr *frame, args []value) value { freeze(args[0], args[1:]...); return nil })
 	E("Thaw", func(fr *frame, args []value) value { thawAll(); return nil })
 	E("Note", func(fr *frame, args []value) value {
 		if len(X.res.Notes) < 20 {
